@@ -378,8 +378,114 @@ func run(repo string) (string, error) {
 	if err := e.to(toFn, &out); err != nil {
 		return "", err
 	}
+	if err := anyArm(repo, &out); err != nil {
+		return "", err
+	}
 	out.WriteString("end ZV.C22.Gen\n")
 	return out.String(), nil
+}
+
+// anyArm: the ANY arm of encoding/asn1 parseField — the first `if` of the function whose body declares `var result
+// interface{}` —: the guard of its type switch and the `case TagX:` arms (tag constant resolved through common.go, the
+// function each arm calls or the identifier it assigns), in source order.
+func anyArm(repo string, out *strings.Builder) error {
+	fset := token.NewFileSet()
+	consts := map[string]int{}
+	cf, err := parser.ParseFile(fset, filepath.Join(repo, "encoding", "asn1", "common.go"), nil, 0)
+	if err != nil {
+		return err
+	}
+	for _, d := range cf.Decls {
+		if gd, ok := d.(*ast.GenDecl); ok && gd.Tok == token.CONST {
+			for _, sp := range gd.Specs {
+				vs := sp.(*ast.ValueSpec)
+				for i, nm := range vs.Names {
+					if i < len(vs.Values) {
+						if k, ok := intLit(vs.Values[i]); ok {
+							consts[nm.Name] = k
+						}
+					}
+				}
+			}
+		}
+	}
+	af, err := parser.ParseFile(fset, filepath.Join(repo, "encoding", "asn1", "asn1.go"), nil, 0)
+	if err != nil {
+		return err
+	}
+	e := &ex{fset: fset}
+	var sw *ast.SwitchStmt
+	var guard ast.Expr
+	for _, d := range af.Decls {
+		fn, ok := d.(*ast.FuncDecl)
+		if !ok || fn.Name.Name != "parseField" || fn.Body == nil {
+			continue
+		}
+		for _, st := range fn.Body.List {
+			ifs, ok := st.(*ast.IfStmt)
+			if !ok || !strings.Contains(e.src(ifs.Cond), "reflect.Interface") {
+				continue
+			}
+			for _, b := range ifs.Body.List {
+				if inner, ok := b.(*ast.IfStmt); ok {
+					for _, c := range inner.Body.List {
+						if s2, ok := c.(*ast.SwitchStmt); ok && e.src(s2.Tag) == "t.tag" {
+							sw, guard = s2, inner.Cond
+						}
+					}
+				}
+			}
+		}
+	}
+	if sw == nil {
+		return fmt.Errorf("asn1.go: the ANY arm of parseField (switch t.tag) not found")
+	}
+	var g []string
+	for _, c := range conjuncts(guard) {
+		g = append(g, e.src(c))
+	}
+	var rows []string
+	var dflt []string
+	for _, c := range sw.Body.List {
+		cc := c.(*ast.CaseClause)
+		if cc.List == nil {
+			for _, s := range cc.Body {
+				dflt = append(dflt, e.src(s))
+			}
+			continue
+		}
+		callee := "?"
+		if len(cc.Body) == 1 {
+			if a, ok := cc.Body[0].(*ast.AssignStmt); ok && len(a.Rhs) == 1 && e.src(a.Lhs[0]) == "result" {
+				switch r := a.Rhs[0].(type) {
+				case *ast.CallExpr:
+					if len(r.Args) == 1 && e.src(r.Args[0]) == "innerBytes" && len(a.Lhs) == 2 && e.src(a.Lhs[1]) == "err" {
+						callee = e.src(r.Fun)
+					}
+				case *ast.Ident:
+					if len(a.Lhs) == 1 {
+						callee = r.Name
+					}
+				}
+			}
+		}
+		for _, x := range cc.List {
+			k, ok := consts[e.src(x)]
+			if !ok {
+				return fmt.Errorf("asn1.go: ANY arm: case %s is not a constant of common.go", e.src(x))
+			}
+			rows = append(rows, fmt.Sprintf("(%d, %s)", k, zvx.LeanStr(callee)))
+		}
+	}
+	fmt.Fprintf(out, "/-- conjuncts of the `if` around the type switch of the ANY arm of parseField (encoding/asn1/asn1.go) -/\ndef anyGuard : List String := %s\n", strList(g))
+	fmt.Fprintf(out, "/-- `case TagX: result, err = f(innerBytes)` / `result = innerBytes` arms of that switch in source order: (tag, f) -/\ndef anyArm : List (Nat × String) := %s\n", zvx.LeanList(rows))
+	cu, ok := consts["ClassUniversal"]
+	if !ok {
+		return fmt.Errorf("common.go: ClassUniversal not found")
+	}
+	fmt.Fprintf(out, "/-- the constant ClassUniversal -/\ndef classUniversal : Nat := %d\n", cu)
+	fmt.Fprintf(out, "/-- statements of its `default:` arm (expected: none — the interface stays nil) -/\ndef anyDefault : List String := %s\n", strList(dflt))
+	return nil
 }
 
 func init() { zvx.Register(zvx.Extractor{Name: "C22", Run: run}) }
